@@ -177,6 +177,11 @@ def correspondence(res, g, lines, pend):
             want_c = v["hy"][sx.start + xi, sy] * reg["dy"]
             want_y = v["hy_ylow"][sx.start + xi, sy][1:] * reg["dy"]
             pend.append(("hy", name, rid, xi, want_c, want_y))
+            # the y-face at the lower end of the region, which borrows a half cell from the region below (or doubles its own at a target)
+            low = reg["connections"].get("lower")
+            dbelow = C["regions"][low]["contours"][2 * xi + 1]["d"] if low is not None else []
+            lines.append("c05hj " + " ".join(h(t) for t in d) + " / " + " ".join(h(t) for t in dbelow) + " /")
+            pend.append(("hyjoin", name, rid, xi, v["hy_ylow"][sx.start + xi, sy] * reg["dy"], low is not None))
     for chain in C["y_groups"]:
         first = C["regions"][chain[0]]
         for xi in range(first["nx"]):
@@ -226,6 +231,17 @@ def run(res, tier):
     reported = set()
     for (kind, name, a, xi, w1, w2), m in zip(pend, mo):
         res.case(key=(kind, name, str(a), xi), nontrivial=True)
+        if kind == "hyjoin":
+            got = [vlib.hex2f(t) for t in m.split()]
+            want = np.array(w1)
+            # model gives all ny+1 faces; the file holds the first ny of them for this region
+            e = float(np.max(np.abs(np.array(got[:len(want)]) - want)) / max(1e-300, np.max(np.abs(want))))
+            if e > 1e-10:
+                res.broken("hy_ylow*dy differs from the model's join-face formula (%s)" % ("face shared with the region below" if w2 else "target face"),
+                           {"grid": name, "region": a, "x": xi, "rel": e})
+            else:
+                res.traces += 1
+            continue
         if kind == "hy":
             p1, p2 = m.split("|")
             g1 = np.array([vlib.hex2f(t) for t in p1.split()])
